@@ -19,9 +19,9 @@ EXTENDS Naturals, Sequences, TLC
 
 \* ---- meaning of tokens as values ----
 IsIp(t)   == t \in {"0.0.0.0", "127.0.0.1", "::1"}
-U16Tok    == {"0", "69", "254", "255", "256", "65535"}
+U16Tok    == {"0", "1", "2", "3", "69", "254", "255", "256", "257", "300", "1000", "65535"}
 IsU16(t)  == t \in U16Tok
-IsU8(t)   == t \in {"0", "69", "254", "255"}
+IsU8(t)   == t \in {"0", "1", "2", "3", "69", "254", "255"}
 IsDir(t)  == t \in {"D1", "D2", "/"}          \* directories that exist where the harness runs
 IsNum(t)  == t \in U16Tok \cup {"65536", "70000"}   \* usize / u64 (client blocksize, timeout)
 
